@@ -21,7 +21,9 @@ RULE = ("three streams: (A) selectVRO under subsets of {-t tags, -T tags, keep, 
         "databases of 1-3 stacks x 1-2 products x 7 versions x 2 flavors x 3 tags written as version/chain files, with "
         "requests in {none, explicit present/absent, >=, <, ==, ||, && expressions, version [expr]}, VROs from stream A "
         "and hand-written ones, through the files, the cache (accepted and rebuilt) and noCache on a cached instance; "
-        "(C) the flavor loop through Eups.setup at depth 0 and 1.  A lookup is non-trivial when the database holds a "
+        "(C) the flavor loop through Eups.setup at depth 0 and 1; (D) one dependency named in a table file, with -t/--vro/-k on "
+        "the line; (E) tables of 2-3 lines for different products, the first mostly with -k or -t, other versions of the "
+        "products already set up: each line's answer and the command's VRO afterwards.  A lookup is non-trivial when the database holds a "
         "declaration of the product for the flavor asked; distinct = distinct (database, request, VRO, mode) digests")
 TRUSTED = ["the local version order of the model's driver (dotted decimals) agrees with Eups.version_cmp / version_match "
            "on the generator's version names (re-checked on every run); the order itself is C10's subject",
@@ -832,8 +834,8 @@ def gen_d(rng):
             "postTags": rng.choice([[], [], ["stable"], ["beta"]]), "preset": preset}
 
 
-def d_table_line(c):
-    words = ["p"]
+def d_table_line(c, name="p"):
+    words = [name]
     for t in c["line"]["tags"]:
         words += ["-t", t]
     if c["line"]["vro"]:
@@ -972,6 +974,213 @@ def eval_d(ctx, cases):
             ctx.fail(clause, inp, io_, mo, note=detail)
 
 
+
+# ---- stream E: several lines of one table — a line's -k / -t / --vro is in force for that line only ---------
+
+E_NAMES = ["a", "b", "c"]
+
+
+def gen_e(rng):
+    world = gen_world(rng, E_NAMES)
+    order = list(E_NAMES)
+    rng.shuffle(order)
+    lines = []
+    for k, nm in enumerate(order[:rng.choice([2, 3, 3])]):
+        have = sorted({d[1] for st in world["stacks"] for d in st["decls"] if d[0] == nm})
+        r = rng.random()
+        if r < 0.4 or not have:
+            version = None
+        elif r < 0.8:
+            version = rng.choice(have)
+        elif r < 0.85:
+            version = "9.9"
+        else:
+            version = rng.choice(EXPRS)
+        line = {"tags": [], "vro": None, "keep": False}
+        r = rng.random()
+        if k == 0:
+            if r < 0.5:
+                line["keep"] = True
+            elif r < 0.75:
+                line["tags"] = [rng.choice(["beta", "stable", "t"])]
+            elif r < 0.85:
+                line["vro"] = rng.choice(["current", "version", "latest"])
+        elif r < 0.1:
+            line["keep"] = True
+        elif r < 0.2:
+            line["tags"] = [rng.choice(["beta", "stable", "t"])]
+        lines.append({"name": nm, "version": version, "vexpr": None, "optional": rng.random() < 0.5, "line": line})
+    presets = {}
+    for nm in E_NAMES:
+        decls = [(i, d) for i, st in enumerate(world["stacks"]) for d in st["decls"] if d[0] == nm]
+        if decls and rng.random() < 0.7:
+            i, d = rng.choice(decls)
+            presets[nm] = {"version": d[1], "flavor": d[2], "stack": i}
+    return {"world": world, "lines": lines, "presets": presets, "keep": rng.random() < 0.1,
+            "tags": rng.choice([[], [], [], ["beta"], ["stable"]]), "postTags": rng.choice([[], [], [], ["stable"]])}
+
+
+def e_child(stacks, c):
+    _quiet()
+    try:
+        for nm, ps in c["presets"].items():
+            os.environ["SETUP_" + nm.upper()] = "%s %s -f %s -Z %s" % (nm, ps["version"], ps["flavor"], stacks[ps["stack"]])
+            os.environ[nm.upper() + "_DIR"] = os.path.join(stacks[ps["stack"]], ps["flavor"], nm, ps["version"])
+        E = common.new_eups(readCache=False, keep=c["keep"])
+        E.selectVRO(c["tags"] or None, None, None, None, postTag=c["postTags"] or None)
+        vro = list(E.getVRO())
+        try:
+            ok, ver, why = E.setup("top")
+            top = bool(ok)
+        except Exception as e:  # noqa
+            top = "raised"
+        setup = {}
+        for nm in E_NAMES:
+            env = os.environ.get("SETUP_" + nm.upper())
+            if env:
+                f = env.split()
+                root = f[f.index("-Z") + 1]
+                setup[nm] = {"version": f[1], "flavor": f[f.index("-f") + 1], "stack": stacks.index(root) if root in stacks else -1}
+            else:
+                setup[nm] = None
+        return {"out": "ok", "vro": vro, "top": top, "set": setup, "vro_after": list(E.getVRO()),
+                "pref_after": list(E.getPreferredTags())}
+    except Exception as e:  # noqa
+        return {"out": "err", "err": err_enum(e)}
+
+
+def e_impl_item(c):
+    root = common.scratch("c03e")
+    try:
+        stacks = write_world(root, c["world"])
+        pdir = os.path.join(root, "prod", "top")
+        os.makedirs(os.path.join(pdir, "ups"))
+        with open(os.path.join(pdir, "ups", "top.table"), "w") as f:
+            for ln in c["lines"]:
+                f.write(d_table_line(ln, ln["name"]))
+        d = os.path.join(stacks[0], "ups_db", "top")
+        os.makedirs(d)
+        with open(os.path.join(d, "1.0.version"), "w") as fd:
+            fd.write("FILE = version\nPRODUCT = top\nVERSION = 1.0\nGroup:\n   FLAVOR = %s\n   QUALIFIERS = \"\"\n"
+                     "   PROD_DIR = %s\n   UPS_DIR = ups\n   TABLE_FILE = top.table\nEnd:\n" % (NATIVE, pdir))
+        with open(os.path.join(d, "current.chain"), "w") as fd:
+            fd.write("FILE = version\nPRODUCT = top\nCHAIN = current\n#Group:\n   FLAVOR = %s\n   VERSION = 1.0\n"
+                     "   QUALIFIERS = \"\"\n#End:\n" % NATIVE)
+        r = common.in_child(e_child, stacks, c)
+        return r[1] if r[0] == "ok" else {"child": list(r[:4])}
+    finally:
+        common.rmtree(root)
+
+
+def spec_resolve(world, name, vro, v, depth):
+    """The property at the level of one request: ('unspecified',) | ('none',) | ('hit', flavor, answers, entry)."""
+    explicit = v is not None and not _RELOP.search(v)
+
+    def walk(f):
+        if not (explicit and depth == 0):
+            return spec_walk(world, name, f, vro, v)
+        for i, ent in enumerate(vro):
+            ans = spec_entry(world, name, f, ent, v)
+            if ans is None:
+                return ("unspecified",)
+            ans = {a for a in ans if a[0] == v}
+            if ans:
+                return ("hit", ans, ent)
+            if ent in VT and not any(e in VT for e in vro[i + 1:]):
+                return ("none",)
+        return ("none",)
+    per_flavor = {f: walk(f) for f in FLAVS}
+    if any(w[0] == "unspecified" for w in per_flavor.values()):
+        return ("unspecified",)
+    for f in FLAVS:
+        if per_flavor[f][0] == "hit":
+            return ("hit", f, per_flavor[f][1], per_flavor[f][2])
+    return ("none",)
+
+
+def e_oracle(c, out):
+    """Every request of the command is answered by the command's VRO as modified by ITS OWN table line only: a line
+    without options, in a command without --keep, is read with the VRO the command reported — whatever an earlier
+    line asked for, and whatever version of the product happens to be set up; and the command's VRO is the same
+    after the table as before it."""
+    if out.get("out") != "ok":
+        return
+    vro = out["vro"]
+    if out["vro_after"] != vro or out["pref_after"] != vro:
+        yield ("vro_unchanged_by_table", "VRO before %s, after: getVRO %s, getPreferredTags %s" % (vro, out["vro_after"], out["pref_after"]))
+    if c["keep"] or out["top"] is not True:
+        return
+    for k, ln in enumerate(c["lines"]):
+        if ln["line"]["tags"] or ln["line"]["vro"] or ln["line"]["keep"] or ln["vexpr"]:
+            continue
+        want = spec_resolve(c["world"], ln["name"], vro, ln["version"], 1)
+        if want[0] == "unspecified":
+            continue
+        ps = c["presets"].get(ln["name"])
+        got = out["set"][ln["name"]]
+        if ps and ps["version"] == ln["version"]:
+            continue      # the version named is the one set up: setup leaves it alone ("already setup locally"), the property is silent
+        earlier = [l2["line"] for l2 in c["lines"][:k] if l2["line"]["tags"] or l2["line"]["vro"] or l2["line"]["keep"]]
+        clause = "line_reads_command_vro" + ("_after_line_with_options" if earlier else "")
+        if want[0] == "none":
+            if not ln["optional"]:
+                yield ("required_dependency", "top was set up although nothing is designated for its required %s" % ln["name"])
+            elif got != ps:
+                yield (clause, "nothing is designated for %s %s: the environment should be as before (%r), got %r"
+                       % (ln["name"], ln["version"], ps, got))
+            continue
+        _, f, answers, ent = want
+        versions = {a[0] for a in answers}
+        if got is None or got["version"] not in versions:
+            yield (clause, "%s %s: entry %s designates %s (%s), set up: %r (before the command: %r)"
+                   % (ln["name"], ln["version"], ent, sorted(answers), f, got, ps))
+        elif not (ps and ps["version"] == got["version"]) and (got["flavor"] != f or (got["version"], got["stack"]) not in answers):
+            yield (clause, "%s %s: entry %s designates %s (%s), set up: %r" % (ln["name"], ln["version"], ent, sorted(answers), f, got))
+
+
+def eval_e(ctx, cases):
+    impl = parallel_map(e_impl_item, cases, workers=6)
+    sels = ctx.lean.ask_many([d_sel_req(c) for c in cases])
+    reqs = []
+    for c, s in zip(cases, sels):
+        reqs.append({"m": "c03", "op": "runTable", "db": c["world"]["stacks"], "mode": "files", "native": NATIVE,
+                     "accepted": [False] * len(c["world"]["stacks"]), "globalTags": GLOBAL_TAGS, "vro": s.get("vro", []),
+                     "keep": c["keep"], "flavors": FLAVS,
+                     "lines": [{"name": ln["name"], "version": ln["version"], "vexpr": ln["vexpr"],
+                                "lineVro": ln["line"]["vro"].split() if ln["line"]["vro"] else None,
+                                "lineTags": ln["line"]["tags"], "lineKeep": ln["line"]["keep"], "optional": ln["optional"],
+                                "already": dict(c["presets"][ln["name"]], reason=None) if ln["name"] in c["presets"] else None}
+                               for ln in c["lines"]]})
+    answers = ctx.lean.ask_many(reqs)
+    for c, io_, s, ans in zip(cases, impl, sels, answers):
+        inp = dict(c, stream="E")
+        if "child" in io_:
+            raise common.InfraError("table child failed: %r" % (io_,))
+        if s.get("out") != "ok" or "bad-op" in ans:
+            mo = {"out": "err", "err": s.get("err", ans.get("bad-op"))}
+        else:
+            setup = {nm: (dict(c["presets"][nm]) if nm in c["presets"] else None) for nm in E_NAMES}
+            for ln, o in zip(c["lines"], ans["outs"]):
+                ps = c["presets"].get(ln["name"])
+                # Eups.setup l.1995-2009 (not part of the resolution model): the version already set up is left alone
+                if o is not None and not (ps and ps["version"] == o["version"]):
+                    setup[ln["name"]] = {k: o[k] for k in ("version", "flavor", "stack")}
+            mo = {"out": "ok", "vro": s["vro"], "top": "raised" if ans["raised"] else True, "set": setup,
+                  "vro_after": ans["vro"], "pref_after": ans["vro"]}
+        ctx.case(key=inp, nontrivial=bool(c["presets"]) and any(world_has(c["world"], ln["name"], NATIVE) for ln in c["lines"]),
+                 sample={"input": {k: c[k] for k in c if k != "world"}, "impl": io_} if ctx.evaluations % 499 == 0 else None)
+        first = c["lines"][0]["line"]
+        ctx.hist("E:first-line=%s" % ("-k" if first["keep"] else "-t" if first["tags"] else "--vro" if first["vro"] else "plain"))
+        ctx.hist("E:result=%s" % (io_.get("err") if io_["out"] != "ok" else "raised" if io_["top"] == "raised" else "ok"))
+        later = [ln for ln in c["lines"][1:] if ln["name"] in c["presets"] and not (ln["line"]["keep"] or ln["line"]["tags"] or ln["line"]["vro"])]
+        if (first["keep"] or first["tags"]) and later:
+            ctx.hist("E:later-plain-line-for-a-set-up-product")
+        if mo != io_:
+            ctx.disagree("table_lines", inp, io_, mo)
+        for clause, detail in e_oracle(c, io_):
+            ctx.fail(clause, inp, io_, mo, note=detail)
+
+
 # ---- the local order against the real one --------------------------------------------------------------
 
 def check_order(ctx):
@@ -1036,7 +1245,7 @@ def shrink_reports(ctx, limit=4, max_tests=120):
     todo, seen = [], set()
     for kind, rec in [("fail", f) for f in ctx.failures if not f.get("finding_class")] + [("dis", d) for d in ctx.disagreements]:
         inp = rec["input"]
-        if not isinstance(inp, dict) or inp.get("stream") not in ("B", "C", "D") or "world" not in inp:
+        if not isinstance(inp, dict) or inp.get("stream") not in ("B", "C", "D", "E") or "world" not in inp:
             continue
         sig = (kind, rec.get("clause") or rec.get("observable"))
         if sig in seen or (inp.get("stream") == "B" and not inp.get("lookup")):
@@ -1101,6 +1310,9 @@ def run_inputs(ctx, inputs):
     ds = [{k: v for k, v in c.items() if k not in ("stream", "_corpus")} for c in inputs if c["stream"] == "D"]
     if ds:
         eval_d(ctx, ds)
+    es = [{k: v for k, v in c.items() if k not in ("stream", "_corpus", "comment")} for c in inputs if c["stream"] == "E"]
+    if es:
+        eval_e(ctx, es)
 
 
 def exhaustive_b(ctx):
@@ -1166,6 +1378,14 @@ def run(ctx):
         k = min(600, nd - done)
         eval_d(ctx, [gen_d(ctx.rng) for _ in range(k)])
         done += k
+    ne = ctx.n(700, 15000)
+    done = 0
+    while done < ne and not ctx.out_of_time():
+        k = min(700, ne - done)
+        eval_e(ctx, [gen_e(ctx.rng) for _ in range(k)])
+        done += k
+    if not ctx.out_of_time() and ctx.histogram.get("E:later-plain-line-for-a-set-up-product", 0) < 0.08 * ne:
+        raise common.InfraError("degenerate distribution: too few tables with an option line before a plain line for a set-up product")
     shrink_reports(ctx)
     if ctx.evaluations and ctx.distinct_nontrivial < ctx.evaluations * 0.3:
         raise common.InfraError("degenerate distribution: %d non-trivial of %d" % (ctx.distinct_nontrivial, ctx.evaluations))
